@@ -195,6 +195,10 @@ type Env struct {
 	// (exists-witnesses are instantiated) or as a hypothesis.
 	inGoal bool
 	errs   []string
+	// anchored index quantifier: anchorText[anchorVar] compiles to anchorElem
+	anchorText string
+	anchorVar  string
+	anchorElem T
 }
 
 func (e *Env) child() *Env {
@@ -349,6 +353,11 @@ func (e *Env) compile(x ast.Expr, want *Sort) T {
 	case *ast.CallExpr:
 		return e.call(v, want)
 	case *ast.IndexExpr:
+		if e.anchorVar != "" {
+			if id, ok := v.Index.(*ast.Ident); ok && id.Name == e.anchorVar && exprString(v.X) == e.anchorText {
+				return e.anchorElem
+			}
+		}
 		base := e.compile(v.X, nil)
 		idx := e.compile(v.Index, SMath)
 		switch base.So.K {
@@ -796,6 +805,16 @@ func (e *Env) call(v *ast.CallExpr, want *Sort) T {
 		c := e.child()
 		c.bound[bn] = T{S: bn, So: bs}
 		if name == "forall" {
+			// index quantifier: when the bound variable indexes a slice s directly (s[k]),
+			// quantify over the absolute position j = s.off + k instead, so that the
+			// element term is (select arr j) and can serve as the instantiation pattern
+			if bs.K == KInt {
+				if anchor := findAnchor(v.Args[1:], bn); anchor != nil {
+					if t, ok := e.anchoredForall(v, bn, anchor); ok {
+						return t
+					}
+				}
+			}
 			var body T
 			if nargs == 3 {
 				cond := c.compileBool(v.Args[1])
@@ -1028,4 +1047,76 @@ func convertTerm(s string, from, to *Sort) string {
 		return app("wrap32", app("bv2nat", s))
 	}
 	return s
+}
+
+// findAnchor returns the base expression X of the first index expression X[k] whose index is
+// exactly the bound variable k and whose base does not mention k.
+func findAnchor(args []ast.Expr, k string) ast.Expr {
+	var found ast.Expr
+	for _, a := range args {
+		ast.Inspect(a, func(n ast.Node) bool {
+			if found != nil {
+				return false
+			}
+			if ix, ok := n.(*ast.IndexExpr); ok {
+				if id, ok := ix.Index.(*ast.Ident); ok && id.Name == k && !mentions(ix.X, k) {
+					if call, isCall := ix.X.(*ast.CallExpr); isCall {
+						if f, ok := call.Fun.(*ast.Ident); ok && f.Name == "old" {
+							return true // old(x)[k]: not anchored
+						}
+					}
+					found = ix.X
+					return false
+				}
+			}
+			if call, ok := n.(*ast.CallExpr); ok {
+				if f, ok := call.Fun.(*ast.Ident); ok && (f.Name == "forall" || f.Name == "exists" || f.Name == "old") {
+					return false
+				}
+			}
+			return true
+		})
+	}
+	return found
+}
+
+func mentions(x ast.Expr, k string) bool {
+	m := false
+	ast.Inspect(x, func(n ast.Node) bool {
+		if id, ok := n.(*ast.Ident); ok && id.Name == k {
+			m = true
+		}
+		return !m
+	})
+	return m
+}
+
+func (e *Env) anchoredForall(v *ast.CallExpr, bn string, anchor ast.Expr) (T, bool) {
+	base := e.compile(anchor, nil)
+	if len(e.errs) > 0 || base.So.K != KSlice {
+		return T{}, false
+	}
+	g := e.g
+	el, elT := g.elemOf(base.GoT)
+	if el == nil {
+		return T{}, false
+	}
+	h := g.stGet(e.st, g.elemHeapName(elT), g.elemHeapSort(el))
+	j := bn + "!abs"
+	c := e.child()
+	c.bound[bn] = T{S: app("-", j, app("s_off", base.S)), So: SMath}
+	c.anchorText = exprString(anchor)
+	c.anchorVar = bn
+	c.anchorElem = T{S: app("select", app("select", h, app("s_obj", base.S)), j), So: el, GoT: elT}
+	var body T
+	if len(v.Args) == 3 {
+		cond := c.compileBool(v.Args[1])
+		b := c.compileBool(v.Args[2])
+		body = T{S: app("=>", cond.S, b.S), So: SBool}
+	} else {
+		body = c.compileBool(v.Args[1])
+	}
+	e.errs = c.errs
+	pat := app("select", app("select", h, app("s_obj", base.S)), j)
+	return T{S: fmt.Sprintf("(forall ((%s Int)) (! %s :pattern (%s)))", j, body.S, pat), So: SBool}, true
 }
